@@ -131,11 +131,19 @@ type engineFn func(rng *rand.Rand, n int, tier string, o *Out)
 var engines = map[string]engineFn{}
 
 func main() {
+	if len(os.Args) >= 3 && os.Args[1] == "child" {
+		runChild(os.Args[2])
+		return
+	}
 	if len(os.Args) < 5 {
 		fmt.Fprintln(os.Stderr, "usage: harness <engine> <seed> <n> <outdir> [tier]  |  harness replay <engine> <casefile> <outdir>")
 		os.Exit(2)
 	}
 	name := os.Args[1]
+	if name == "child" {
+		runChild(os.Args[2])
+		return
+	}
 	seed, _ := strconv.ParseInt(os.Args[2], 10, 64)
 	n, _ := strconv.Atoi(os.Args[3])
 	dir := os.Args[4]
